@@ -250,6 +250,8 @@ func runC19(r *Run) {
 	r.guardOb("C19.frozen-staking", p.deliverEntry("STAKE"), "stake effects", callsTo(fnBalMinus, fnDelegStake, fnHandleStake), nf, "a guilty validator can stake")
 	r.guardOb("C19.frozen-staking", p.deliverEntry("UNSTAKE"), "unstake effects", callsTo(fnDelegUnstake, fnHandleUnst), nf, "a guilty validator can unstake")
 	r.guardOb("C19.frozen-staking", p.deliverEntry("WITHDRAW"), "withdraw effects", callsTo(fnDelegWithdr, fnBalAdd), nf, "a guilty validator can withdraw")
+	checkCreateSuspicious(r)
+	checkCleanTracker(r)
 	r.Floor("C19.", 30)
 }
 
